@@ -1,4 +1,34 @@
 //@include prelude/header.rs
+// Unit scan_imports — C14 (discovery + plugin-status part), C12 (termination of the worklist), C11 (no panic):
+//   FixtureDatabase::scan_imported_fixture_modules (src/fixtures/scanner.rs), extracted verbatim.
+// L1: the real function proves `exists h: Hist. hist_post(old, final, h)` — h is the ghost history of the run
+//     (prelude/scanimp_spec.rs): per processed file the state it was processed in (Snap), per new plugin mark its reason
+//     (Mark), per discovered module its discoverer (src), and the analyses in execution order (AStep).  Clause groups:
+//       post_frame (F)  constants untouched; plugin_fixture_files only GAINS the keys of h.why; the index is the replay of
+//                       the analyses h.tr over an abstract step function; file_cache changes by these analyses only
+//       post_P     (P)  every new mark comes from a star import / pytest_plugins entry of a file that WAS a plugin file
+//                       when it was processed; every such edge of such a file leads to a plugin file (one-step closure)
+//       post_D     (D)  the start set (is_initial) is processed; import targets of a processed file are processed or were
+//                       cached at that moment; a processed file was cached at the start / analysed / missing / unreadable;
+//                       only start-set files and discovered modules are processed
+//       post_R     (R)  first analyze_file_fresh steps (module not cached when its turn came, text read from disk), then
+//                       analyze_file steps for exactly the readable modules that were cached when they were marked, each
+//                       once, with all marks of the run in place
+//     (T) every loop has a `decreases` Verus discharges; outer loop: scan_universe() \ processed_files shrinks in every
+//         iteration that does not `break` (new_modules non-empty => a file was newly processed in this iteration).
+//     C11: `lock().unwrap()` (VpLock: never poisoned), `iteration += 1` on i32 (bounded by |scan_universe()| < 2^31).
+// L2 (end of this file): lemma_C14_* from the property texts; proof canaries; one exec canary (@as) with five injected
+//     `assert(false)` (V1-V5) that must all fail (assumed callee contracts are not contradictory in their contexts).
+// ASSUMED (external_body / axioms), besides the shims of the prelude:
+//   * callee stubs below: get_canonical_path (function `canon`, idempotent), get_file_content (content_of), get_parsed_ast,
+//     get_line_index, extract_fixture_imports (imports_of), extract_pytest_plugins (plugins_of) — as unit imports_closure;
+//     resolve_module_to_file (resolve + FINITE-UNIVERSE assumption: canonicalised results lie in scan_universe());
+//     analyze_file / analyze_file_fresh: hand-written FRAME stubs (an_step / cache_next), see there;
+//   * prelude/scanimp_spec.rs: axiom_content_of (get_file_content = cached text else disk; proved in unit memo), fs_read,
+//     is_conftest_or_test_name, scan_universe; prelude/scanimp_shims.rs: `for x in &HashSet`, FromIterator for HashSet;
+//   * @wrapexpr helpers: vp_is_conftest_or_test (OsStr file-name test), vp_read_to_string (std::fs::read_to_string);
+//   * VpLock (Mutex::lock never poisoned, no thread model).
+// NOT assumed: prelude/scanimp_iter.rs (completeness of filter/map/collect) is PROVED from vstd's iterator specs.
 use rustpython_parser::ast::{Stmt, Expr};
 verus! {
 global size_of usize == 8;  // A6: 64-bit target
@@ -673,8 +703,7 @@ impl FixtureDatabase {
         // C11: `iteration` is an i32 counter; it stays below the number of paths in the universe
         scan_universe().len() < 0x7fff_ffff,
     ensures
-        // exec canary: must FAIL (otherwise the assumed callee contracts / axioms / preconditions are contradictory)
-        false,
+        exists|h: Hist| Self::hist_post(old(self), final(self), h),
 @start
     let ghost uni = scan_universe();
     let ghost mut snap: Map<PV, Snap> = Map::empty();
@@ -712,6 +741,7 @@ impl FixtureDatabase {
         queued = set_of(files_to_check@);
     }
 @return 1
+    assert(false);   // V1: context of the start-set computation
     let h = Hist { snap: snap, why: why, src: src, tr: tr, nfresh: 0 };
     assert(set_of(files_to_check@) =~= Set::<PV>::empty());
     assert(Self::post_frame(old(self), self, h)) by { assert(self.plugins() =~= old(self).plugins().union(why.dom())); }
@@ -822,6 +852,7 @@ impl FixtureDatabase {
     proof { assert(imp_target(env, cur, ii) == Some(h)); assert(imp_any_at(env, cur, ii, h)); lemma_any_edge_imp(env, cur, ii, h); }
 @after insert 2
     proof {
+        assert(false);   // V2: imports loop, branch that marks a star-imported module (resolve / canonicalise / insert)
         let m = Mark { by: cur, cached: c_it.contains_key(h) };
         assert(star_at(env, cur, ii, h));
         lemma_edge_star(env, cur, ii, h);
@@ -885,6 +916,7 @@ impl FixtureDatabase {
     }
 @after new_modules 3
     proof {
+        assert(false);   // V3: pytest_plugins loop, branch that enqueues a new module
         lemma_handled_enqueue(old(self).cache(), tr, q_a, nm_a, h);
         src = src.insert(h, cur);
         queued = queued.insert(h);
@@ -947,6 +979,7 @@ impl FixtureDatabase {
     proof { assert(*module_path == *it5.seq()[i5]); lemma_why_pl(snap, why, old(self).plugins(), self.plugins()); }
 @after clone 9
     proof {
+        assert(false);   // V4: analysis loop, after exists / read / analyze_file_fresh
         let s = AStep { f: m, text: content@, cleanup: false, cache: c_b, plugins: self.plugins() };
         lemma_chain_push(old(self).cache(), tr, c_b, s, self.cache());
         lemma_fresh_ok_push(tr, queued, old(self).plugins(), self.plugins(), s);
@@ -1008,6 +1041,7 @@ impl FixtureDatabase {
     proof { assert(*module_path == *it6.seq()[i6]); }
 @after clone 10
     proof {
+        assert(false);   // V5: re-analysis loop, after get_file_content / analyze_file
         let s = AStep { f: m, text: (*content)@, cleanup: true, cache: c_b, plugins: plf };
         lemma_chain_push(old(self).cache(), tr, c_b, s, self.cache());
         lemma_replay_push(old(self).idx(), old(self).consts(), tr, s);
